@@ -143,11 +143,21 @@ func (w *TWorld) Kill(i int) int {
 		return 0
 	}
 	open := w.Net.OpenClient(s.addr)
-	s.srv.Close()
-	w.Net.SeverServerSide(s.addr, nil)
-	select {
-	case <-s.ret:
-	case <-time.After(5 * time.Second):
+	// "listening" on the network precedes the Server's own record of its listener by a few
+	// instructions; a Close in that window finds nothing to close, so Close is repeated until
+	// Listen has returned
+	for tries := 0; tries < 50; tries++ {
+		s.srv.Close()
+		w.Net.SeverServerSide(s.addr, nil)
+		stopped := false
+		select {
+		case <-s.ret:
+			stopped = true
+		case <-time.After(100 * time.Millisecond):
+		}
+		if stopped {
+			break
+		}
 	}
 	s.up = false
 	return open
